@@ -18,7 +18,8 @@ vars == <<a, last>>
 Opts0 == [lsb0 |-> FALSE, ba |-> FALSE, mx |-> "saturate"]
 IntV(i) == VInt(IF i < 0 THEN 1 ELSE 0, Strip(UBits(Abs(i), 8)))
 Dts == IF NDt = 1 THEN {<<"int", 3>>} ELSE {<<"uint", 2>>, <<"int", 3>>}
-ValsFor(dn) == IF dn = "uint" THEN {IntV(0), IntV(3), IntV(4)} ELSE {IntV(-4), IntV(3), IntV(-5)}
+ValsFor(dn) == IF NDt = 1 THEN {IntV(3), IntV(-5)}
+               ELSE IF dn = "uint" THEN {IntV(0), IntV(3), IntV(4)} ELSE {IntV(-4), IntV(3), IntV(-5)}
 Call(op, ia, va) == [op |-> op, t |-> "a", ia |-> ia, sa |-> <<>>, va |-> va, xs |-> <<>>, tk |-> <<>>]
 Idx == (-(N + 1))..(N + 1)
 OptIdx == {NoneI} \cup Idx
